@@ -363,23 +363,41 @@ class C14(Property):
         coord = np.array(step["coord"])
         box = tuple(step["box"])
 
+        def mutate(v):
+            if v.dtype.kind == "u":
+                v[...] = 255 - v
+            elif v.dtype.kind == "i":
+                np.negative(v, out=v)
+                v += 3
+            else:
+                v *= -1.0
+                v += 3.5
+
         def run():
-            return cryomap.extract_subvolume(vol.copy(), coord, box)
+            v = vol.copy()            # ONE array object for both extractions
+            a = cryomap.extract_subvolume(v, coord, box)
+            mutate(v)                 # the caller keeps processing its tomogram in place ...
+            b = cryomap.extract_subvolume(v, coord, box)   # ... and extracts again
+            return a, b, v
 
         o1, o2 = self.twice(world, step, run)
         for o in (o1, o2):
             if not o.ok:
                 raise Violation("op_raised", "extract_subvolume:%s" % o.describe(), "extract_subvolume(%r, %r) of a %r volume raised %r\n%s" % (
                     coord.tolist(), box, vol.shape, o.exc, o.tb))
-        self.fill_independent(world, step, o1.value, o2.value, "extract_subvolume")
+        self.fill_independent(world, step, o1.value[0], o2.value[0], "extract_subvolume")
+        self.fill_independent(world, step, o1.value[1], o2.value[1], "extract_subvolume (second call)")
         world.oracle()
-        want, kind = self.window_model(vol.astype(np.float64), coord, box)
-        world.probes["window_" + kind] += 1
-        got = o1.value
-        # (the mean of a float32 volume is itself computed in single precision)
-        if got.shape != want.shape or not np.allclose(got, want, rtol=0, atol=1e-9 if vol.dtype != np.float32 else 1e-3):
-            raise Violation("window", "extract:%s" % kind, "extract_subvolume(centre %r, box %r) of a %r volume is not the requested window with mean fill (%s window)" % (
-                coord.tolist(), box, vol.shape, kind))
+        atol = 1e-9 if vol.dtype != np.float32 else 1e-3
+        for which, got, src in (("first", o1.value[0], vol), ("second, after an in-place edit of the same array", o1.value[1], o1.value[2])):
+            want, kind = self.window_model(np.asarray(src).astype(np.float64), coord, box)
+            if which == "first":
+                world.probes["window_" + kind] += 1
+            # (the mean of a float32 volume is itself computed in single precision)
+            if got.shape != want.shape or not np.allclose(got, want, rtol=0, atol=atol):
+                raise Violation("window", "extract:%s%s" % (kind, "" if which == "first" else ":second_call"),
+                                "extract_subvolume(centre %r, box %r) of a %r %s volume (%s call) is not the requested window with mean fill (%s window)" % (
+                                    coord.tolist(), box, vol.shape, vol.dtype, which, kind))
         world.stats["acks"] += 1
         return []
 
